@@ -8,7 +8,7 @@ from .common import Report, run_driver_parallel, seed, log
 from .impl import run_cases
 
 W = 1 << 32
-NAMES = ["Ma", "Mb", "Mc", "Md"]
+NAMES = ["Ma", "Mb", "Mc", "Md"] + [f"Mx{k}" for k in range(4, 80)]
 FIELD_TYPES = [("u8", 8), ("u16", 16), ("u32", 32)]
 
 
@@ -28,7 +28,7 @@ def gen_device(rng, nmsg=None, periods=None, two=False):
         else:
             p = rng.choice([-1, 0, 0, 1, 2, 3, 5, 10, 15, 20, 100, 1000, 65536, (1 << 31) - 1])  # 0: due on every new timestamp
         # "no period" is written either as `period: -1` or by leaving the field out
-        msgs.append({"name": NAMES[k], "id": rng.randint(0, 2047), "period": p, "fields": fields,
+        msgs.append({"name": NAMES[k], "id": (rng.randint(0, 2047) if nmsg <= 4 else 100 + k), "period": p, "fields": fields,
                      "omit_period": p == -1 and rng.random() < 0.6, "dev": 0})
     if two:
         # two devices in one schema, both schedulers linked into one program (each has its own call history)
@@ -153,7 +153,10 @@ def run(prop, tier, replay=None):
     rng = random.Random(seed() * 104729 + 19)
     rep.check_proofs()
     ndev, nhist = (24, 40) if tier == "quick" else (200, 150)
-    devs = [gen_device(rng, two=(k % 3 == 2)) for k in range(ndev)]
+    # every eighth device is large (more messages than the bits of a machine word of 32 or 64 bits)
+    devs = [gen_device(rng, two=(k % 3 == 2), nmsg=(rng.choice([33, 40, 66]) if k % 8 == 5 else None)) for k in range(ndev)]
+    for d in devs:
+        rep.hist("messages_per_schema", len(d["msgs"]) if len(d["msgs"]) < 5 else "33+")
     hists = [[gen_history(rng, d, rng.randint(1, 30 if tier == "quick" else 200)) for _ in range(nhist)] for d in devs]
     exhaustive = False
     if tier == "thorough":
